@@ -38,6 +38,22 @@ Transportation1dSorter::Transportation1dSorter(
   for (auto p : snkSort) {
     snkOrder.push_back(p.second);
   }
+
+  // Keep track of the sources that are left out
+  nbSources = u.size();
+  for (size_t i = 0; i < u.size(); ++i) {
+    if (s[i] > 0LL) {
+      continue;
+    }
+    int closest = -1;
+    for (int j : snkOrder) {
+      if (closest == -1 ||
+          std::abs(u[i] - v[j]) < std::abs(u[i] - v[closest])) {
+        closest = j;
+      }
+    }
+    emptySources.emplace_back(i, std::max(closest, 0));
+  }
 }
 
 Transportation1dSolver Transportation1dSorter::convert(
@@ -71,8 +87,12 @@ Transportation1dSorter::Solution Transportation1dSorter::convertSolutionBack(
 
 std::vector<int> Transportation1dSorter::convertAssignmentBack(
     const std::vector<int> &a) const {
-  std::vector<int> ret;
-  ret.resize(a.size());
+  // One entry per source of the original problem, including the ones without
+  // supply that are not part of the sorted problem
+  std::vector<int> ret(nbSources, 0);
+  for (auto [src, snk] : emptySources) {
+    ret[src] = snk;
+  }
   for (size_t i = 0; i < a.size(); ++i) {
     ret[srcOrder[i]] = snkOrder[a[i]];
   }
